@@ -942,7 +942,8 @@ class AsyncIteratorQueue(IteratorQueue[_ValueT], AsyncIterableQueue[_ValueT]):
     if not isinstance(iterator, AsyncIterator):
       iterator = aiter(iterator)
     self._start_enqueue()
-    while True:
+    # Like the sync enqueuer: stops pulling once the queue is stopped or failed.
+    while not self.enqueue_done:
       try:
         value = await asyncio.wait_for(anext(iterator), self.timeout)
         await self.async_put(value)
